@@ -1343,11 +1343,18 @@ class SegmentationImage:
         A list of `Shapely <https://shapely.readthedocs.io/en/stable/>`_
         polygons representing each source segment.
         """
-        from shapely import transform
+        from shapely import MultiPolygon, transform
         from shapely.geometry import shape
 
-        polygons = [shape(geo_poly[0]) for geo_poly in self._geo_polygons
-                    if geo_poly[1] != 0]
+        # group the polygons by label; a label with non-connected
+        # regions is represented by a single MultiPolygon so that there
+        # is exactly one entry per label (in label order)
+        label_polygons = {}
+        for geo_poly, label in self._geo_polygons:
+            if label != 0:
+                label_polygons.setdefault(label, []).append(shape(geo_poly))
+        polygons = [polys[0] if len(polys) == 1 else MultiPolygon(polys)
+                    for _, polys in sorted(label_polygons.items())]
 
         # shift the vertices so that the (0, 0) origin is at the
         # center of the lower-left pixel
@@ -1379,8 +1386,9 @@ class SegmentationImage:
         """
         from regions import Regions
 
-        return Regions([_shapely_polygon_to_region(poly)
-                        for poly in self.polygons])
+        return Regions([_shapely_polygon_to_region(part)
+                        for poly in self.polygons
+                        for part in getattr(poly, 'geoms', [poly])])
 
     def to_patches(self, *, origin=(0, 0), scale=1.0, **kwargs):
         """
@@ -1410,7 +1418,8 @@ class SegmentationImage:
             A list of matplotlib polygon patches for the source
             segments.
         """
-        from matplotlib.patches import Polygon
+        from matplotlib.patches import PathPatch, Polygon
+        from matplotlib.path import Path
 
         origin = np.array(origin)
         patch_kwargs = {'edgecolor': 'white', 'facecolor': 'none'}
@@ -1418,6 +1427,14 @@ class SegmentationImage:
 
         patches = []
         for poly in self.polygons:
+            if hasattr(poly, 'geoms'):
+                # non-connected segment: one compound patch for the label
+                paths = [Path(self._get_polygon_vertices(part, origin=origin,
+                                                         scale=scale),
+                              closed=True) for part in poly.geoms]
+                patches.append(PathPatch(Path.make_compound_path(*paths),
+                                         **patch_kwargs))
+                continue
             xy = self._get_polygon_vertices(poly, origin=origin, scale=scale)
             patches.append(Polygon(xy, **patch_kwargs))
 
